@@ -62,6 +62,8 @@ func scC15End(w *World, a Args, rng *rand.Rand) error {
 		return err
 	}
 	pc := w.Proxy.Last()
+	w.ArmCause() // the handlers' patience runs from the end cause below, not from their start
+	defer w.MarkCause()
 	react := time.Duration(a.Int("reactms", 0)) * time.Millisecond
 	var wg sync.WaitGroup
 	call := func(kind string, tok int, arg ...interface{}) {
@@ -167,6 +169,7 @@ func scC15End(w *World, a Args, rng *rand.Rand) error {
 		// a frame is on its way to the main loop when the end comes
 		go A.CallT("notify", 90, 200*time.Millisecond)
 	}
+	w.MarkCause()
 	switch cause {
 	case "graceful":
 		go w.CloseClient(A)
@@ -206,7 +209,7 @@ func scC15End(w *World, a Args, rng *rand.Rand) error {
 	waitCh(done, patience(3*time.Second))
 	// ... and then nothing may be left behind for the dead connection
 	n, tops := 0, []string{}
-	dl = time.Now().Add(patience(3 * time.Second))
+	dl = time.Now().Add(patience(6 * time.Second)) // (a handler still rendering tens of megabytes on a starved machine is slow, not retained)
 	for {
 		w.mu.Lock()
 		remote := w.srvRemote[1]
